@@ -53,7 +53,7 @@ def run(tier):
         R.proof = dict(ok=False, theorems=[], log=log[-3000:])
         return R.finish(VC.TRUSTED, VC.ASSUME, RULE, "make -C coq Properties/C12.vo")
     M = common.Model()
-    cases = VC.gen_pairs(R, 4000 if tier == "quick" else 80000)
+    cases = VC.gen_pairs(R, 4000 if tier == "quick" else 80000) + VC.edge_pairs(R, 300 if tier == "quick" else 6000)
     reqs, idx = [], []
     for c in cases:
         if isinstance(c.ca, Exception) or isinstance(c.cb, Exception):
